@@ -1,1 +1,85 @@
-let handle line = "unknown-case " ^ line
+(* structural cases: s-expressions of gval, name maps, type environments *)
+open Model
+open Util
+
+type sx = A of string | L of sx list
+
+let parse_sx (s : string) : sx =
+  let n = String.length s in
+  let pos = ref 0 in
+  let rec skip () = if !pos < n && s.[!pos] = ' ' then (incr pos; skip ()) in
+  let rec one () =
+    skip ();
+    if !pos >= n then failwith "sexp: eof";
+    if s.[!pos] = '(' then begin
+      incr pos;
+      let items = ref [] in
+      let rec loop () =
+        skip ();
+        if !pos >= n then failwith "sexp: unclosed";
+        if s.[!pos] = ')' then incr pos else (items := one () :: !items; loop ()) in
+      loop ();
+      L (List.rev !items)
+    end else begin
+      let st = !pos in
+      while !pos < n && s.[!pos] <> ' ' && s.[!pos] <> '(' && s.[!pos] <> ')' do incr pos done;
+      A (String.sub s st (!pos - st))
+    end in
+  one ()
+
+let name_of a = match a with A s -> runes_of_string s | _ -> failwith "name"
+let z_of a = match a with A s -> z_of_hex s | _ -> failwith "z"
+let zi a = match a with A s -> z_of_int (int_of_string s) | _ -> failwith "int"
+let rk s = match s with "st" -> RStruct | "sl" -> RSlice | "mp" -> RMap | _ -> failwith "rkind"
+(* struct/slice/map ids of different kinds never collide: 4*id + kind code; 0 stays 0 *)
+let addr_of kind a =
+  let i = (match a with A s -> int_of_string s | _ -> failwith "addr") in
+  if i = 0 then Z0 else z_of_int (4 * i + (match kind with RStruct -> 1 | RSlice -> 2 | RMap -> 3))
+
+let rec gval_of (x : sx) : gval =
+  match x with
+  | A "N" -> VNil
+  | A "U" -> VUnexported
+  | A "X" -> VBad
+  | L [A "b"; A "1"] -> VBool true
+  | L [A "b"; A "0"] -> VBool false
+  | L [A "i"; A k; v] -> VInt (Driver_kinds.kind_of_string k, z_of v)
+  | L [A "f32"; v] -> VF32 (z_of v)
+  | L [A "f64"; v] -> VF64 (z_of v)
+  | L [A "s"; v] -> VStr (name_of v)
+  | L [A "bin"; A h] -> VBytes (bytes_of_hex h)
+  | L [A "t"; s; n] -> VTime (z_of s, z_of n)
+  | L (A "st" :: a :: ty :: fields) ->
+    VStruct (addr_of RStruct a, name_of ty,
+             List.map (fun f -> match f with L [n; v] -> (name_of n, gval_of v) | _ -> failwith "field") fields)
+  | L (A "sl" :: a :: ty :: items) -> VSlice (addr_of RSlice a, name_of ty, List.map gval_of items)
+  | L (A "mp" :: a :: ty :: es) ->
+    VMap (addr_of RMap a, name_of ty, List.map (fun e -> match e with L [k; v] -> (gval_of k, gval_of v) | _ -> failwith "entry") es)
+  | L [A "seen"; A k; a] -> VSeen (rk k, addr_of (rk k) a)
+  | _ -> failwith "gval"
+
+let namemap_of (x : sx) =
+  match x with
+  | L (A "nm" :: es) -> List.map (fun e -> match e with L [k; v] -> (name_of k, name_of v) | _ -> failwith "nm entry") es
+  | _ -> failwith "nm"
+
+(* "cmd (nm ...) (gval)" -> the two s-expressions after the command word *)
+let two_sx (rest : string) =
+  match parse_sx ("(" ^ rest ^ ")") with
+  | L [a; b] -> (a, b)
+  | _ -> failwith "expected two s-expressions"
+
+let handle (line : string) : string =
+  let sp = try String.index line ' ' with Not_found -> String.length line in
+  let cmd = String.sub line 0 sp in
+  let rest = if sp < String.length line then String.sub line (sp + 1) (String.length line - sp - 1) else "" in
+  match cmd with
+  | "enc" ->
+    let (nm, v) = two_sx rest in
+    res_str (fun bs -> "ok " ^ hex_of_bytes bs) (encode (namemap_of nm) (gval_of v))
+  | "encw" ->   (* the sizes of the Write calls *)
+    let (nm, v) = two_sx rest in
+    res_str (fun ws -> "ok " ^ String.concat "," (List.map (fun w -> string_of_int (List.length w)) ws)) (encode_writes (namemap_of nm) (gval_of v))
+  | "rootelem" -> string_of_runes (array_root_elem_name (runes_of_string rest))
+  | "lower" -> string_of_runes (lower_name (runes_of_string rest))
+  | _ -> "unknown-case " ^ line
